@@ -153,12 +153,13 @@ Proof. exact triangular_R. Qed.
 Theorem C15_is_symmetric_def : forall (T : Type) (O : Ops T) (m : mat T),
   is_symmetric O m = true <->
   nrows m = ncols m /\ forall i j, i < nrows m -> j < ncols m -> i <= j ->
-     differ O (nth (i * ncols m + j) (data m) (zero O)) (nth (j * ncols m + i) (data m) (zero O)) = false.
+     sym_differ O (nth (i * ncols m + j) (data m) (zero O)) (nth (j * ncols m + i) (data m) (zero O)) = false.
 Proof. exact @is_symmetric_def. Qed.
 Theorem C15_is_symmetric_R : forall m : mat R,
   is_symmetric RO m = true <->
   nrows m = ncols m /\ forall i j, i < nrows m -> j < ncols m ->
-     (Rabs (nth (i * ncols m + j) (data m) 0 - nth (j * ncols m + i) (data m) 0) <= / 4503599627370496)%R.
+     (Rabs (nth (i * ncols m + j) (data m) 0 - nth (j * ncols m + i) (data m) 0) <=
+      / 4503599627370496 * Rmax (Rabs (nth (i * ncols m + j) (data m) 0)) (Rabs (nth (j * ncols m + i) (data m) 0)))%R.
 Proof. exact is_symmetric_R. Qed.
 Theorem C15_is_square_u_def : forall len n : nat, is_square_u len = Some n <-> n * n = len.
 Proof. exact is_square_u_def. Qed.
